@@ -17,7 +17,9 @@ func init() {
 		Explain: "Decides an ownership condition that read-back exactness depends on: every slice stored into TrackableDataTrie.dirtyData (in any function of package data/state) is backed by an array " +
 			"allocated in that function on every path (make / append onto a fresh base / []byte(string)), never by a caller's key or value buffer. append(value, suffix...) onto a caller buffer with " +
 			"spare capacity lets a later write through the same buffer rewrite what was stored. " +
-			"Not decided (value-level): suffix/trim arithmetic, read of a dirty deleted key, size limit arithmetic.",
+			"Further: every success exit of SaveKeyValue has stored the (possibly empty = deleted) value in dirtyData (the dirty entry is what shadows the older trie value), a key present in dirtyData is never answered from the trie, " +
+			"and the caller's key/value slices are never the destination of append/copy/element stores (append(key, ...) writes into the caller's spare capacity, which may be the caller's value). " +
+			"Not decided (value-level): suffix/trim arithmetic, size limit arithmetic.",
 		Run: runC08,
 	})
 }
@@ -99,5 +101,59 @@ func runC08(c *core.Ctx) {
 			}
 		})
 		c.Check(has, "C08/save-stores-in-dirty-data", "TrackableDataTrie.SaveKeyValue", fn.Pos(), "SaveKeyValue records the value in dirtyData", "SaveKeyValue no longer stores into dirtyData: anchor drift")
+		// every accepted write (an empty value is a delete) leaves a dirty entry: it is what shadows the
+		// older value still in the trie until the account is saved
+		isDirtyStore := func(in ssa.Instruction) bool {
+			if mu, ok := in.(*ssa.MapUpdate); ok {
+				_, f := core.FieldLoad(mu.Map)
+				return f == dirty
+			}
+			return false
+		}
+		esc, path := core.PathQ{Fn: fn, Via: isDirtyStore, Target: core.SuccessReturn}.Escape()
+		c.Check(esc == nil, "C08/save-stores-in-dirty-data", "TrackableDataTrie.SaveKeyValue/every-success-exit", fn.Pos(),
+			"every success exit has stored the (possibly empty) value under the key in dirtyData",
+			"SaveKeyValue can report success without leaving an entry for the key in dirtyData ("+c.P.PathString(path)+"): reads fall through to the trie and return the value from before this write/delete")
+		// the caller's buffers are only read: append(param, ...) writes into the spare capacity of the
+		// caller's backing array, which may be the caller's value (key = buf[:4], value = buf[4:])
+		k := 0
+		rootParam := func(v ssa.Value) *ssa.Parameter {
+			for i := 0; i < 8; i++ {
+				switch x := v.(type) {
+				case *ssa.Slice:
+					v = x.X
+				case *ssa.Parameter:
+					return x
+				default:
+					return nil
+				}
+			}
+			return nil
+		}
+		core.Instrs(fn, func(in ssa.Instruction) {
+			switch x := in.(type) {
+			case *ssa.Call:
+				bi, ok := x.Call.Value.(*ssa.Builtin)
+				if !ok || len(x.Call.Args) == 0 {
+					return
+				}
+				if bi.Name() != "append" && bi.Name() != "copy" {
+					return
+				}
+				k++
+				p := rootParam(x.Call.Args[0])
+				c.Check(p == nil, "C08/caller-buffers-only-read", fmt.Sprintf("TrackableDataTrie.SaveKeyValue/%s#%d", bi.Name(), k), x.Pos(),
+					"the destination is not a caller's buffer",
+					"the destination of "+bi.Name()+" is the caller's slice: it writes into the caller's backing array (its spare capacity may be the caller's value buffer), so what is stored differs from what was written")
+			case *ssa.Store:
+				if ia, ok := x.Addr.(*ssa.IndexAddr); ok {
+					if p := rootParam(ia.X); p != nil {
+						k++
+						c.Fail("C08/caller-buffers-only-read", fmt.Sprintf("TrackableDataTrie.SaveKeyValue/store#%d", k), x.Pos(), "writes an element of the caller's slice "+p.Name())
+					}
+				}
+			}
+		})
+		c.Floor("C08/caller-buffers-only-read", 1)
 	}
 }
